@@ -6,7 +6,7 @@ From Coq Require Import ZArith List Bool Relations.Relation_Operators.
 Import ListNotations.
 From ClapModel Require Import Base.Bytes Base.Machine.
 From ClapModel Require Import Parse.Cmd Parse.Build Parse.Valid Parse.Matcher Parse.Errors Parse.Validator Parse.Parser.
-From ClapModel Require Import ParseProofs.Relations ParseProofs.RelationsTree ParseProofs.RelationsClauses ParseProofs.RelationsComplete ParseProofs.RelationsFamilies ParseProofs.RelationsCoherent.
+From ClapModel Require Import ParseProofs.Relations ParseProofs.RelationsTree ParseProofs.RelationsClauses ParseProofs.RelationsComplete ParseProofs.RelationsFamilies ParseProofs.RelationsCoherent ParseProofs.RelationsLoop.
 From ClapModel Require Import ParseProofs.ValidateTotal.
 From ClapModel Require Import ParseProofs.Safe ParseProofs.Invariant ParseProofs.Totality ParseProofs.TotalityMain ParseProofs.IndexInv.
 From ClapModel Require Import ParseProofs.Globals.
@@ -425,7 +425,8 @@ Print Assumptions C03_static_nonvacuous.
     [f2_family c]: some arg overrides ANOTHER arg and one of the two belongs to a group.
     [group_safe c] = neither.  Both findings go through one function, [Parser::remove_overrides].
 
-    FULL STATEMENT (kept visible; NOT proved -- carried by the differential run and the oracle):
+    FULL STATEMENT (round 2 kept it visible; PROVED in round 3: [C03_parse_sound_members] and
+    [C03_level_coherent] below, traversal in ParseProofs/RelationsLoop.v):
       forall c0 toks st, plain c0 = true -> valid c0 = true ->
         (every level of the built tree is [group_safe]) -> run_level c0 toks = ROk st ->
         coherent_b (build_self c0) (mt st) = true            (hence [RelationsM], by
@@ -526,3 +527,108 @@ Theorem C03_required_set_exact : forall c mt required, fm_wf mt ->
   forall x, In x required <-> Required c mt (present mt) x.
 Proof. exact RequiresChain.required_set_exact. Qed.
 Print Assumptions C03_required_set_exact.
+
+(** ---------------------------------------------------------------------------------------
+    ROUND 3 (ParseProofs/RelationsLoop.v): coherence of the group entries carried through the whole
+    level by a dedicated traversal, and the chain theorem with hypotheses only ALONG the reported
+    chain (a sibling that the parse did not descend into may ignore errors / lie in a family). *)
+
+(** the traversal: a state predicate that reads only the entries of the matcher and is preserved
+    by one whole command-line occurrence ([react]) and by [resolve_pending] is preserved by the
+    token loop -- for predicates that are NOT closed under removal of arbitrary entries
+    (partial correctness; error states unconstrained) *)
+Theorem C03_loop_carries : forall (c : cmd) (J : ps -> Prop),
+  (forall st st', mt_args (mt st') = mt_args (mt st) -> J st -> J st') ->
+  (forall idn a raw ti st, In a (c_args c) -> J st ->
+     Dispatch.holds (fun x => J (fst x)) anyE (react c idn SCmdLine a raw ti st)) ->
+  (forall st, J st -> Dispatch.holds J anyE (resolve_pending c st)) ->
+  forall toks ls st, J st -> Dispatch.holds (fun lr => J (lr_st lr)) anyE (parse_loop c toks ls st).
+Proof. exact parse_loop_J. Qed.
+Print Assumptions C03_loop_carries.
+
+(** one whole occurrence, any source: outside the two families every group is coherent afterwards
+    if it was before ([src_ok]: the default source is only used for an absent id) *)
+Theorem C03_occurrence_coherent : forall c,
+  (forall a, In a (c_args c) -> find_arg c (a_id a) = Some a) -> rel_wf c = true -> group_safe c = true ->
+  (forall g, In g (c_groups c) -> find_arg c (g_id g) = None) ->
+  forall idn s a raw ti st st' pr, In a (c_args c) -> src_ok s a (mt st) -> Coh c (mt st) ->
+  react_core c idn s a raw ti st = ROk (st', pr) -> Coh c (mt st').
+Proof. exact react_core_coh. Qed.
+Print Assumptions C03_occurrence_coherent.
+
+(** any level of the recursion, any depth, with or without [ignore_errors]: outside the families a
+    successful level that starts from a coherent matcher ends in a coherent matcher ... *)
+Theorem C03_level_coherent : forall fuel c toks st0 st,
+  tree_ok fuel c -> group_safe c = true -> coherent_b c (mt st0) = true ->
+  get_matches_with fuel c toks st0 = ROk st -> coherent_b c (mt st) = true.
+Proof. exact level_coherent_b. Qed.
+Print Assumptions C03_level_coherent.
+
+(** ... and satisfies the member-based reading of the property *)
+Theorem C03_level_members : forall fuel c toks st0 st,
+  tree_ok fuel c -> group_safe c = true -> G c idx_inv trivV st0 -> Coh c (mt st0) ->
+  get_matches_with fuel c toks st0 = ROk st -> RelationsM c (mt st).
+Proof. exact level_members. Qed.
+Print Assumptions C03_level_members.
+
+(** the statement left visible in round 2: for every valid [plain] definition whose built root is
+    outside the two families and every token list, a successful parse without error-ignoring ends
+    in a coherent matcher, which satisfies [RelationsM] *)
+Theorem C03_parse_sound_members : forall c0 toks m,
+  plain c0 = true -> valid c0 = true -> group_safe (build_self c0) = true ->
+  do_parse c0 toks = OOk m -> is_set s_ignore_errors (build_self c0) = false ->
+  exists st, run_level c0 toks = ROk st /\ m = reported c0 st
+             /\ coherent_b (build_self c0) (mt st) = true /\ RelationsM (build_self c0) (mt st).
+Proof. exact parse_members. Qed.
+Print Assumptions C03_parse_sound_members.
+
+(** every level of the chain, hypotheses along the reported chain only: [strict_chain_b c m] -- every
+    level of the chain recorded in [m] that recorded a subcommand does not ignore errors;
+    [safe_chain_b c m] -- every level of that chain is outside the two families.  Siblings the
+    parse did not descend into are unconstrained (they may set [ignore_errors]). *)
+Theorem C03_level_chain_along : forall fuel c toks st0 st,
+  tree_ok fuel c -> G c idx_inv trivV st0 -> mt_sub (mt st0) = None ->
+  get_matches_with fuel c toks st0 = ROk st ->
+  strict_chain_b c (into_inner (mt st)) = true ->
+  validated_chain c (into_inner (mt st))
+  /\ (Coh c (mt st0) -> safe_chain_b c (into_inner (mt st)) = true -> members_chain c (into_inner (mt st))).
+Proof. exact gmw_chain_along. Qed.
+Print Assumptions C03_level_chain_along.
+
+Theorem C03_parse_sound_along : forall c0 toks m,
+  plain c0 = true -> valid c0 = true -> is_set s_ignore_errors (build_self c0) = false ->
+  do_parse c0 toks = OOk m -> strict_chain_b (build_self c0) m = true ->
+  exists st, run_level c0 toks = ROk st /\ m = reported c0 st
+             /\ validated_chain (build_self c0) (into_inner (mt st))
+             /\ Globals.chain m = Globals.chain (into_inner (mt st))
+             /\ (safe_chain_b (build_self c0) m = true -> members_chain (build_self c0) (into_inner (mt st))).
+Proof. exact parse_sound_along. Qed.
+Print Assumptions C03_parse_sound_along.
+
+Theorem C03_parse_top_sound_along : forall c0 argv m,
+  plain c0 = true -> (forall b, valid (c0 <| c_bin_name := b |>) = true) -> valid c0 = true ->
+  is_set s_ignore_errors (build_self c0) = false ->
+  parse_top c0 argv = OOk m ->
+  exists c1 toks,
+    (c1 = c0 \/ exists b, c1 = c0 <| c_bin_name := Some b |>)
+    /\ (strict_chain_b (build_self c1) m = true ->
+        exists st, run_level c1 toks = ROk st /\ m = reported c1 st
+          /\ validated_chain (build_self c1) (into_inner (mt st))
+          /\ Globals.chain m = Globals.chain (into_inner (mt st))
+          /\ (safe_chain_b (build_self c1) m = true -> members_chain (build_self c1) (into_inner (mt st)))).
+Proof. exact parse_top_sound_along. Qed.
+Print Assumptions C03_parse_top_sound_along.
+
+(** non-vacuity: a definition with a sibling that ignores errors ([no_ignore] fails), groups and a
+    firing override outside both families at the root, a non-multiple group at the child level *)
+Theorem C03_along_nonvacuous :
+  plain al_cmd = true /\ valid al_cmd = true /\ no_ignore al_cmd = false
+  /\ is_set s_ignore_errors (build_self al_cmd) = false
+  /\ group_safe (build_self al_cmd) = true
+  /\ (exists m, do_parse al_cmd al_toks = OOk m /\ Globals.chain m = [[115]]
+                /\ strict_chain_b (build_self al_cmd) m = true /\ safe_chain_b (build_self al_cmd) m = true)
+  /\ out_kind (do_parse al_cmd [[115]; dd [97;97]; dd [99;99]]) = Some EArgumentConflict
+  /\ out_kind (do_parse al_cmd [[115]; dd [97;97]; dd [98;98]]) = Some EArgumentConflict
+  /\ out_kind (do_parse al_cmd [[116]]) = Some EMissingRequiredArgument.
+Proof. exact along_nonvacuous. Qed.
+Print Assumptions C03_along_nonvacuous.
